@@ -270,7 +270,7 @@ theorem init_outs_valid (v : Variant) :
 def canon1 (c : Config) : Config :=
   { admin := c.admin, regimen := none, outputs := (tablesOf b .vanilla).stateNames,
     pmap := idMap (cfgTables b c).paramNames, omap := idMap (tablesOf b .vanilla).stateNames,
-    sens := none, red := none }
+    sens := none, red := none, sensCount := 0 }
 
 theorem canon_step1 (c : Config) (h : Canon.adminOK b c) :
     net b (initCfg b) (canonAdmin c) = canon1 b c := by
@@ -292,7 +292,7 @@ def canon3 (c : Config) : Config :=
 /-- after names and outputs -/
 def canon4 (c : Config) : Config :=
   { admin := c.admin, regimen := none, outputs := c.outputs, pmap := c.pmap, omap := c.omap,
-    sens := none, red := none }
+    sens := none, red := none, sensCount := 0 }
 def canon5 (c : Config) : Config := { canon4 c with regimen := c.regimen }
 
 theorem canon_step234 (c : Config) (h : Canon b c) :
@@ -353,15 +353,15 @@ theorem canon_step5 (c : Config) (h : Canon b c) :
       simp only [ha4.symm, hr4.symm]
 
 theorem canon_step6 (c : Config) (h : Canon b c) :
-    net b (canon5 c) (canonSens b c) = { c with red := none } := by
+    net b (canon5 c) (canonSens b c) = { normCount c with red := none } := by
   obtain ⟨_, _, _, _, _, _, _, _, _, _, hs, _⟩ := h
   unfold Canon.sensOK at hs
   unfold canonSens
   cases hsens : c.sens with
   | none =>
     simp only [net]
-    unfold canon5 canon4
-    obtain ⟨a, r, o, p, om, s, rd⟩ := c
+    unfold canon5 canon4 normCount
+    obtain ⟨a, r, o, p, om, s, rd, n⟩ := c
     simp only at hsens
     subst hsens
     rfl
@@ -372,19 +372,19 @@ theorem canon_step6 (c : Config) (h : Canon b c) :
     have hp : (canon5 c).pmap = c.pmap := rfl
     simp only [net, applyCfg, hr, cfgSens, Bool.not_true, Bool.false_eq_true, if_false, ht, hp, hs.2,
       if_neg hs.1]
-    unfold canon5 canon4
-    obtain ⟨a, r, o, p, om, s, rd⟩ := c
+    unfold canon5 canon4 normCount
+    obtain ⟨a, r, o, p, om, s, rd, n⟩ := c
     simp only at hsens
     subst hsens
     rfl
 
 
 theorem canon_step7 (c : Config) (h : Canon b c) :
-    net b { c with red := none } (canonicalRed b c) = c := by
+    net b { normCount c with red := none } (canonicalRed b c) = normCount c := by
   obtain ⟨_, _, _, _, _, _, _, _, _, _, hs, hred⟩ := h
   unfold Canon.sensOK at hs
   unfold Canon.redOK at hred
-  obtain ⟨admin, regimen, outputs, pmap, omap, sens, red⟩ := c
+  obtain ⟨admin, regimen, outputs, pmap, omap, sens, red, cnt⟩ := c
   cases red with
   | none => rfl
   | some r =>
@@ -400,33 +400,38 @@ theorem canon_step7 (c : Config) (h : Canon b c) :
         | true =>
           obtain ⟨hsn, hfree⟩ := hred.2 rfl
           subst hsn
-          have hfree' : cfgFree b ⟨admin, regimen, outputs, pmap, omap, none, some ⟨none, none, false⟩⟩
+          have hfree' : cfgFree b ⟨admin, regimen, outputs, pmap, omap, none, some ⟨none, none, false⟩, 0⟩
               ⟨none, none, false⟩ = [] := hfree
-          simp only [canonicalRed, net, applyCfg, cfgSensR, Bool.not_true, Bool.false_eq_true, if_false,
-            if_true, List.nil_append, List.cons_append, List.append_nil, hfree', cfgSens, Bool.not_false]
+          simp only [normCount, canonicalRed, net, applyCfg, cfgSensR, Bool.not_true, Bool.false_eq_true,
+            if_false, if_true, List.nil_append, List.cons_append, List.append_nil, hfree', cfgSens,
+            Bool.not_false]
     | some m =>
       cases values with
       | none => exact absurd hred.1 (by simp)
       | some v =>
         obtain ⟨⟨hfix, hsf⟩, hempty⟩ := hred
-        have hfix' : fixMask ((cfgPublic b ⟨admin, regimen, outputs, pmap, omap, sens, some ⟨none, none, false⟩⟩).getD [])
-            (cfgTables b ⟨admin, regimen, outputs, pmap, omap, sens, some ⟨none, none, false⟩⟩).nParams none none
-            (fixPairs ((cfgPublic b ⟨admin, regimen, outputs, pmap, omap, sens, some ⟨some m, some v, e⟩⟩).getD []) m v)
-            = (some m, some v) := hfix
         cases sens with
         | none =>
+          have hfix' : fixMask ((cfgPublic b ⟨admin, regimen, outputs, pmap, omap, none, some ⟨none, none, false⟩, 0⟩).getD [])
+              (cfgTables b ⟨admin, regimen, outputs, pmap, omap, none, some ⟨none, none, false⟩, 0⟩).nParams none none
+              (fixPairs ((cfgPublic b ⟨admin, regimen, outputs, pmap, omap, none, some ⟨some m, some v, e⟩, cnt⟩).getD []) m v)
+              = (some m, some v) := hfix
           cases e with
           | false =>
-            simp only [canonicalRed, net, applyCfg, cfgFix, hfix', Bool.false_eq_true, if_false,
+            simp only [normCount, canonicalRed, net, applyCfg, cfgFix, hfix', Bool.false_eq_true, if_false,
               List.nil_append, List.cons_append, List.append_nil, Option.isSome_none, Bool.or_self]
           | true =>
             obtain ⟨_, hfree⟩ := hempty rfl
-            have hfree' : cfgFree b ⟨admin, regimen, outputs, pmap, omap, none, some ⟨some m, some v, false⟩⟩
+            have hfree' : cfgFree b ⟨admin, regimen, outputs, pmap, omap, none, some ⟨some m, some v, false⟩, 0⟩
                 ⟨some m, some v, false⟩ = [] := hfree
-            simp only [canonicalRed, net, applyCfg, cfgFix, hfix', Bool.false_eq_true, if_false, if_true,
-              List.nil_append, List.cons_append, List.append_nil, Option.isSome_none, Bool.or_self,
+            simp only [normCount, canonicalRed, net, applyCfg, cfgFix, hfix', Bool.false_eq_true, if_false,
+              if_true, List.nil_append, List.cons_append, List.append_nil, Option.isSome_none, Bool.or_self,
               cfgSensR, Bool.not_true, hfree', cfgSens, Bool.not_false]
         | some sel =>
+          have hfix' : fixMask ((cfgPublic b ⟨admin, regimen, outputs, pmap, omap, some sel, some ⟨none, none, false⟩, sel.length⟩).getD [])
+              (cfgTables b ⟨admin, regimen, outputs, pmap, omap, some sel, some ⟨none, none, false⟩, sel.length⟩).nParams none none
+              (fixPairs ((cfgPublic b ⟨admin, regimen, outputs, pmap, omap, some sel, some ⟨some m, some v, e⟩, cnt⟩).getD []) m v)
+              = (some m, some v) := hfix
           have he : e = false := by
             cases e with
             | false => rfl
@@ -434,18 +439,20 @@ theorem canon_step7 (c : Config) (h : Canon b c) :
           subst he
           simp only at hsf
           obtain ⟨hfne, hsel⟩ := hsf
-          have hfne' : cfgFree b ⟨admin, regimen, outputs, pmap, omap, some sel, some ⟨some m, some v, false⟩⟩
+          have hfne' : cfgFree b ⟨admin, regimen, outputs, pmap, omap, some sel, some ⟨some m, some v, false⟩, sel.length⟩
               ⟨some m, some v, false⟩ ≠ [] := hfne
-          have hsel' : sensSelect (cfgTables b ⟨admin, regimen, outputs, pmap, omap, some sel, some ⟨some m, some v, false⟩⟩)
-              pmap (some (cfgFree b ⟨admin, regimen, outputs, pmap, omap, some sel, some ⟨some m, some v, false⟩⟩
+          have hsel' : sensSelect (cfgTables b ⟨admin, regimen, outputs, pmap, omap, some sel, some ⟨some m, some v, false⟩, sel.length⟩)
+              pmap (some (cfgFree b ⟨admin, regimen, outputs, pmap, omap, some sel, some ⟨some m, some v, false⟩, sel.length⟩
                 ⟨some m, some v, false⟩)) = sel := hsel
-          simp only [canonicalRed, net, applyCfg, cfgFix, hfix', Bool.false_eq_true, if_false, if_true,
-            List.nil_append, List.cons_append, List.append_nil, Option.isSome_some, Bool.or_true,
+          simp only [normCount, canonicalRed, net, applyCfg, cfgFix, hfix', Bool.false_eq_true, if_false,
+            if_true, List.nil_append, List.cons_append, List.append_nil, Option.isSome_some, Bool.or_true,
             cfgSensR, Bool.not_true, hfne', cfgSens, hsel', hs.1]
 
 
-/-- the canonical calls, applied to the configuration of a new object, reach exactly `c` -/
-theorem canonical_reaches (c : Config) (h : Canon b c) : net b (initCfg b) (canonical b c) = c := by
+/-- the canonical calls, applied to the configuration of a new object, reach exactly `c` (with the residue
+of a new object) -/
+theorem canonical_reaches (c : Config) (h : Canon b c) :
+    net b (initCfg b) (canonical b c) = normCount c := by
   unfold canonical
   rw [net_append, net_append, net_append, net_append, canon_step1 b c h.1, canon_step234 b c h,
     canon_step5 b c h, canon_step6 b c h, canon_step7 b c h]
